@@ -236,7 +236,7 @@ func (s *SysSpec) Render() map[string]string {
 				continue
 			}
 			if st.Indirect&(1<<uint(indirect%32)) != 0 {
-				prop := fmt.Sprintf("p%s%d", name, i)
+				prop := fmt.Sprintf("p%s%s%d", section[:1], name, i) // per section: an appender and a logger may share a name
 				m[caseKey(prop, st.KeyCase)] = kvs[i].v
 				kvs[i].v = "${" + caseKey(prop, st.KeyCase) + "}"
 			}
